@@ -113,11 +113,13 @@ func runC04(e *sim.Env) {
 	type note struct{ tip types.ChainIndex }
 	var notes1, notes2 []note
 	cancel1 := s.cm.OnReorg(func(idx types.ChainIndex) { notes1 = append(notes1, note{idx}) })
+	var args2 []types.ChainIndex
 	s.cm.OnReorg(func(idx types.ChainIndex) {
 		// a listener may call back into the manager
 		t := s.cm.Tip()
 		s.cm.BestIndex(t.Height)
 		notes2 = append(notes2, note{t})
+		args2 = append(args2, idx)
 	})
 	cancelled := false
 
@@ -132,9 +134,17 @@ func runC04(e *sim.Env) {
 		e.Step()
 		n1, n2 := len(notes1), len(notes2)
 		var err error
-		e.Guard("C04.panic", "AddBlocks", func() { err = s.cm.AddBlocks(blocksOf(batch)) })
+		call := "AddBlocks"
+		if states, ok := s.validatedStates(batch); ok && e.Chance(1, 2) {
+			// the syncer's second entry point
+			call = "AddValidatedV2Blocks"
+			e.Probe("via_add_validated")
+			e.Guard("C04.panic", call, func() { err = s.cm.AddValidatedV2Blocks(blocksOf(batch), states) })
+		} else {
+			e.Guard("C04.panic", call, func() { err = s.cm.AddBlocks(blocksOf(batch)) })
+		}
 		newTip := auditBestChain(e, "C04", s, tree)
-		e.Logf("AddBlocks(%d, last %s) -> err=%v tip %s", len(batch), batch[len(batch)-1].Describe(), err != nil, newTip.Describe())
+		e.Logf("%s(%d, last %s) -> err=%v tip %s", call, len(batch), batch[len(batch)-1].Describe(), err != nil, newTip.Describe())
 		// notifications: whenever, and only when, the tip changed
 		d1, d2 := len(notes1)-n1, len(notes2)-n2
 		if cancelled {
@@ -146,7 +156,11 @@ func runC04(e *sim.Env) {
 		case newTip == tip && (d2 != 0 || (!cancelled && d1 != 0)):
 			e.Violationf("C04.reorg-notification", "spurious", "the tip did not change (err=%v) but the listeners were called %d / %d times", err, d1, d2)
 		case newTip != tip && notes2[len(notes2)-1].tip != newTip.Index():
-			e.Violationf("C04.reorg-notification", "wrong-tip", "listener was told %v, the tip is %v", notes2[len(notes2)-1].tip, newTip.Index())
+			e.Violationf("C04.reorg-notification", "wrong-tip", "a listener calling Tip() from inside the notification saw %v, the tip is %v", notes2[len(notes2)-1].tip, newTip.Index())
+		case newTip != tip && args2[len(args2)-1] != newTip.Index():
+			e.Violationf("C04.reorg-notification", "wrong-tip-argument", "%s moved the tip %s -> %s but the listeners were called with %v", call, tip.Describe(), newTip.Describe(), args2[len(args2)-1])
+		case newTip != tip && !cancelled && notes1[len(notes1)-1].tip != newTip.Index():
+			e.Violationf("C04.reorg-notification", "wrong-tip-argument", "%s moved the tip %s -> %s but the listeners were called with %v", call, tip.Describe(), newTip.Describe(), notes1[len(notes1)-1].tip)
 		}
 		if newTip != tip {
 			fork := gen.CommonAncestor(tip, newTip)
